@@ -15,11 +15,14 @@ import (
 
 	"verif/harness/c01"
 	"verif/harness/c03"
+	"verif/harness/c04"
 	"verif/harness/c07"
 	"verif/harness/c08"
 	"verif/harness/c09"
 	"verif/harness/c10"
+	"verif/harness/c08dns"
 	"verif/harness/c15"
+	"verif/harness/c17"
 	"verif/harness/core"
 )
 
@@ -28,11 +31,16 @@ var runners = map[string]core.Runner{
 	"C02": c01.Runner02,
 	"C16": c01.Runner16,
 	"C03": c03.Runner,
+	"C04": c04.Runner,
+	"C05": c04.Runner,
+	"C06": c04.Runner,
 	"C07": c07.Runner,
 	"C08": c08.Runner,
 	"C09": c09.Runner,
 	"C10": c10.Runner,
 	"C15": c15.Runner,
+	"C17": c17.Runner,
+	"C08dns": c08dns.Runner,
 }
 
 func main() {
